@@ -19,10 +19,11 @@ PROP = "C09"
 LEVEL = "proof"
 INCLUDE = ['w4s_c09']   # wave 4 (lead, integration): generated skeleton of the cp_als main loop (Gen/GenCpAls.v): bridge theorem + replay stream sk_cpals
 GEN_UNITS = ["GenCpAls"]
-COQ_TARGETS = ["Props/C09.vo", "Props/C09b.vo", "Props/C09c.vo", "Model/C09Exec.vo", "Model/C09Init.vo", "Model/C09Replay.vo", "Model/Harness.vo"]
-THEOREM_FILES = ["Props/C09.v", "Props/C09b.v", "Props/C09c.v"]
+COQ_TARGETS = ["Props/C09.vo", "Props/C09b.vo", "Props/C09c.vo", "Props/C09d.vo", "Model/C09Exec.vo", "Model/C09Init.vo", "Model/C09Replay.vo",
+               "Model/C09InnerExec.vo", "Model/Harness.vo"]
+THEOREM_FILES = ["Props/C09.v", "Props/C09b.v", "Props/C09c.v", "Props/C09d.v"]
 COQ_IMPORTS = ("From Coq Require Import List ZArith QArith Qcanon Bool.\n"
-               "From PV Require Import Base.Index Np.Array Model.Sparse Model.Repr Model.Harness Model.C09Als Model.C09Exec Model.C09Init Model.C09Replay.\n")
+               "From PV Require Import Base.Index Np.Array Model.Sparse Model.Repr Model.Harness Model.C09Als Model.C09Exec Model.C09Init Model.C09Replay Model.C09InnerExec.\n")
 RULE = ("integer data tensors 3x3x2 .. 4x3x2, 2-way and 4-way (<= 24 entries) held as dense / sparse (3 stored orders) / Tucker / "
         "sum tensors; ranks 1-2; given integer starts (with and without weights), seeded random starts and init='nvecs' (dense / sparse / "
         "Tucker data); PLANTED rank-3 (3x3x3, 4x3x3, 3x4x3) and rank-4 (4x4x4) problems = exact integer Kruskal structure + small integer "
@@ -44,7 +45,11 @@ RULE = ("integer data tensors 3x3x2 .. 4x3x2, 2-way and 4-way (<= 24 entries) he
         "the model's update in exact rationals (one update per sweep with rotating mode position; every update + the returned model in one "
         "case of 8 / 6; an update whose exact Gram-Hadamard conditioning ratio is < 1e-3 is only certified backward); dense data stored as "
         "uint8 / int8 / int16 / int32 / int64 / float32 / float64 with sums of squares beyond the narrow type's range (alone, inside a sum "
-        "tensor, printing on / off, maxiters 0).")
+        "tensor, printing on / off, maxiters 0). Wave 5: sparse data with a LONG, THINLY POPULATED mode and colliding entries (at most half "
+        "as many stored entries as the mode is long, two or three of them on one index of that mode; 2x3x8, 8x2x3, 2x9x2, 3x2x10, 2x2x2x8, "
+        "2x2x12, 10x3x2, thorough also 4x5x30 / 30x4x5; alone and as the sparse part of a sum tensor; the long mode updated last in two "
+        "cases of three; starts that do not silence a stored entry); on EVERY run pyttb's X.innerprod(M) and X.norm() (data object, returned "
+        "model) compared in Coq with the algorithm models of every holder class (holder_inner_ok; theorems Props/C09d.v).")
 TOL = "tol6"
 SHARD = 2
 COND_MIN = F(1, 1000)
@@ -106,6 +111,32 @@ def _data_spec(rng, kind, shape):
         return {"kind": "ktensor", "shape": shape, "weights": [rng.randint(1, 2)],
                 "factors": [[[rng.randint(-1, 2)] for _ in range(d)] for d in shape]}
     raise ValueError(kind)
+
+
+def _thin_spec(rng, shape, m):
+    """sparse data with a LONG, THINLY POPULATED mode m: at most shape[m] // 2 stored entries (so every one-mode result of sptensor.ttv
+    for that mode — the MTTKRP column of mode m — has fewer stored candidates than half of its length), at least two of them sharing
+    their mode-m index (the MTTKRP row of that index accumulates several products), the others on distinct mode-m indices; non-zero
+    integer values of both signs, random stored order"""
+    L = shape[m]
+    k = rng.randint(2, max(2, L // 2))
+    idxs = rng.sample(range(L), k - 1)
+    col = [idxs[0]] + idxs                                       # k entries, one mode-m index used twice ...
+    if k >= 4 and rng.random() < 0.5:
+        col[-1] = idxs[1 % len(idxs)]                            # ... or two indices used twice / one used three times
+    rest_shape = [d for q, d in enumerate(shape) if q != m]
+    subs = []
+    for x in col:
+        for _ in range(50):
+            o = [rng.randrange(d) for d in rest_shape]
+            sub = o[:m] + [x] + o[m:]
+            if sub not in subs:
+                subs.append(sub)
+                break
+    vals = [rng.choice([-3, -2, -1, 1, 2, 3, 4, 5]) for _ in subs]
+    order = list(range(len(subs)))
+    rng.shuffle(order)
+    return {"kind": "sparse", "shape": shape, "subs": [subs[q] for q in order], "vals": [vals[q] for q in order]}
 
 
 def _sort_perm(keys):
@@ -390,6 +421,51 @@ def gen_cases(rng, tier):
             a1["init"] = {"w": w1, "f": uf}
             a1["fixsigns"] = not a0["fixsigns"]
             cases.append(Case("cp_als_maxiters0", a1, True))
+    # (vii) wave 5 — sparse data with a long, thinly populated mode and colliding entries (nnz <= half of the mode's length, two or
+    #       more stored entries on one index of that mode): long mode first / interior / last, 3-way and 4-way, alone and as the sparse
+    #       part of a sum tensor; ranks 1-2; silent and printing runs.  Appended LAST so that the draws of the blocks above are unchanged.
+    #       The block draws from a CHILD generator seeded from rng's current state (rng itself is not advanced): the INCLUDEd module's
+    #       stream (w4s_c09 shares rng and runs after this function) stays the committed one.
+    import random as _random
+    rng_outer = rng
+    rng = _random.Random("C09-vii-%s-%s" % (tier, hash(rng_outer.getstate()[1][:16])))
+    THIN = [([2, 3, 8], 2), ([8, 2, 3], 0), ([2, 9, 2], 1), ([3, 2, 10], 2), ([2, 2, 2, 8], 3), ([2, 2, 12], 2), ([10, 3, 2], 0)]
+    if big:
+        THIN = THIN * 3 + [([4, 5, 30], 2), ([4, 5, 30], 2), ([30, 4, 5], 0)]
+    else:
+        THIN = rng.sample(THIN, 4) + [([3, 2, 10], 2)]
+    for rep_, (shape, m) in enumerate(THIN):
+        N = len(shape)
+        for _try in range(30):
+            spec = _thin_spec(rng, shape, m)
+            R = 1 if rep_ % 3 == 0 else rng.choice([1, 2])
+            if min(U9.unfolding_ranks(shape, U9.dense_of(spec))) >= R:
+                break
+        else:
+            continue
+        if rep_ % 4 == 3 and math.prod(shape) <= 64:
+            spec = {"kind": "sum", "shape": shape, "parts": [_data_spec(rng, "dense", shape), spec]}
+        if rng.random() < 0.7:
+            for _try in range(40):
+                fs = _rand_factors(rng, shape, R)
+                if all(any(x != 0 for x in fs[q][sub[q]]) for sub in (spec["subs"] if spec["kind"] == "sparse" else spec["parts"][1]["subs"])
+                       for q in range(N)):
+                    break                         # no stored entry is silenced by an all-zero row of the start
+            init = {"w": [1] * R, "f": fs}
+        else:
+            init = {"seed": rng.randrange(1000)}
+        # mode order: two cases of three update the long mode LAST (its normal equations and the reported fit are then built from the
+        # MTTKRP of that mode), the others anywhere
+        if rep_ % 3 != 2:
+            others = [q for q in range(N) if q != m]
+            rng.shuffle(others)
+            dimorder = others + [m]
+            if dimorder == list(range(N)) and rng.random() < 0.5:
+                dimorder = None
+        else:
+            dimorder = rng.sample(range(N), N)
+        add(spec, R, init, dimorder, None, [1, 2] if math.prod(shape) > 100 else [1, 2, 3],
+            rng.choice([0.0, 1e-4]), rng.random() < 0.5, printitn=(1 if rep_ % 5 == 4 else 0))
     return cases
 
 
@@ -533,6 +609,13 @@ def _one_run(ttb, np, a, m, record=False):
     o["rerun_normres"] = tgen.exact(out2["normresidual"])
     o["rerun_iters"] = int(out2["iters"])
     o["rerun_init"] = tgen.obs_ktensor(np, Minit2)
+    # wave 5: the holder's own innerprod / norm — the calls of cp_als's set-up, printing branch and maxiters = 0 branch — on the data
+    # object and the returned model (compared in Coq with the ALGORITHM models of Proofs/C09Inner.v)
+    import warnings
+    with warnings.catch_warnings():
+        warnings.simplefilter("ignore")
+        o["ip"] = tgen.exact(X.innerprod(M))
+        o["nrm"] = tgen.exact(X.norm())
     o["data_same"] = o["data_same"] and U9.obs_data(np, ttb, X) == before
     if record:
         rec = []
@@ -618,6 +701,9 @@ def _descaled(a, o):
                     r[key] = dv(r[key], c * c)
         if "hints" in r:
             r["hints"] = [None if w is None else [F(x) / c for x in w] for w in r["hints"]]
+        if "ip" in r:
+            r["ip"] = dv(r["ip"], c * c)             # <cX, M_c> with M_c's weights = c * (descaled weights)
+            r["nrm"] = dv(r["nrm"], c)
         out["runs"].append(r)
     return out
 
@@ -713,6 +799,15 @@ def _replay_parts(a, last_raw, dims):
     return [f"(let XR := {xr} in " + " && ".join(parts) + ")"], done, gated
 
 
+def _inner_part(a, r, lead):
+    """wave 5: pyttb's X.innerprod(M) / X.norm() on the data object and the returned model against the algorithm models of every
+    holder class (Model/C09InnerExec.v holder_inner_ok; theorems Props/C09d.v)"""
+    if "ip" not in r or isinstance(r["ip"], str) or isinstance(r["nrm"], str) or not _numeric(r["model"]):
+        return ""
+    K = U9.gqk(r["model"]["weights"], r["model"]["factors"])
+    return (f"{lead}holder_inner_ok {TOL} {gbool(a['data']['kind'] == 'sum')} {U9.gparts(a['data'])} {K} {gq(r['ip'])} {gq(r['nrm'])}")
+
+
 def coq_check(c, o):
     a = c.args
     o_raw = o
@@ -734,7 +829,7 @@ def coq_check(c, o):
                 and _rerun_same(r))
         return (f"let s := {gnlist(a['data']['shape'])} in let X := memo s {U9.gxden(a['data'])} in let K := {K} in "
                 f"k_shape_ok s {a['rank']} K && {fitfn} {TOL} s X K {gq(r['normres'])} {gq(r['fit'])} && normal_form_ok {TOL} K && "
-                f"den_close {TOL} s (qden_k K) (qden_k {K0}) && {gbool(same)}")
+                f"den_close {TOL} s (qden_k K) (qden_k {K0}) && {gbool(same)}" + _inner_part(a, r, " && "))
     ref = _reference(a)
     if ref is not None and (not ref[2] or ref[1] < COND_MIN) and ("exc" not in o or o["exc"] == "LinAlgError"):
         return None                      # ill-conditioned / singular in exact arithmetic (numpy may raise LinAlgError): skipped deterministically
@@ -773,6 +868,10 @@ def coq_check(c, o):
             parts.append(gbool(r["init"]["factors"] == a["init"]["f"] and r["init"]["weights"] == a["init"]["w"]
                                and r["given_after"]["factors"] == a["init"]["f"] and r["given_after"]["weights"] == a["init"]["w"]))
         parts.append(gbool(_rerun_same(r)))
+    # wave 5: innerprod / norm of the holder (algorithm models) on the returned model of the longest run
+    ipart = _inner_part(a, o["runs"][-1], "")
+    if ipart:
+        parts.append(ipart)
     # monotone trace
     fl = "[" + "; ".join(gq(f) for f in fits) + "]"
     parts.append(f"nonincreasing {TOL} {fl}" if is_sum else f"nondecreasing {TOL} {fl}")
@@ -937,8 +1036,10 @@ CORRESPONDENCE_ONLY = ["numpy's norm / argsort meeting the oracle contracts of C
                        "numpy.random.uniform delivering one sequential stream (init='random' itself is proved over a captured stream: "
                        "C09_init_random_*; the returned guess is compared in Coq with init_random of the captured stream)",
                        "init='nvecs' (returned guess = guess used; the vectors themselves are C14's)",
-                       "innerprod / norm of every holder inside cp_als (normX, the printing branch, maxiters = 0), LAPACK solve meeting A.Y = P and "
-                       "numpy's 2-norm / max / division kernels (replayed forward and certified backward on every sampled run); "
+                       "LAPACK solve meeting A.Y = P and numpy's 2-norm / max / division / sqrt kernels (replayed forward and certified backward "
+                       "on every sampled run); innerprod / norm of every holder inside cp_als (normX, the printing branch, maxiters = 0) are "
+                       "PROVED since wave 5 (Props/C09d.v over C02's ttv / innerprod / norm algorithm models; the square root is an oracle) and "
+                       "compared with pyttb's own X.innerprod(M) / X.norm() on every sampled run; "
                        "tensor / sptensor / ktensor / ttensor / sumtensor.mttkrp are PROVED (C02 algorithm models, bridged by C09_holder_*), "
                        "the inner and outer loops of cp_als are tied to the source through the generated skeleton (C09_gen_sweep_bridge, "
                        "W4S_C09_cpals_bridge)"]
